@@ -14,7 +14,15 @@
      "option"  : one member of a builtin options table     [kind, dflt, val]
      "operand" : the input vector of the operator          [slots]      "t" = tensor, "-" = omitted (-1)
      "output"  : the outputs of the operator               [uses]       per output: subset of {"net", "next"}
-     "tensor"  : one tensor seen by the operator           [role, has]  has = set of optional members it carries
+     "tensor"  : one tensor seen by the operator           [role, has, dt]  has = set of members of the quantisation table
+                                                           it carries (ANY subset: a table with a scale and no zero point, a
+                                                           zero point only, min without max ... are all valid files; an
+                                                           operator with such an operand stays on the CPU, which is exactly
+                                                           when it must come back verbatim), dt = integer / float tensor
+     "weight"  : the constant weights of a convolution-like operator that stays on the CPU, compiled with one of the
+                 command-line options that touch tensors   [opt, zp, per, act, why]
+                 zp = zero / non-zero zero point, per tensor / per axis, int8 / int16 activations, why = the reason the
+                 operator is not on the NPU ("asym": its asymmetric weights; "other": stride, dilation ...)
    The policies of the implementation are constants, so that the seeded regressions are *configurations of this
    model* (negative controls): the round-trip invariants must hold for the policies of the real compiler and must
    fail for each broken one.  The set of initial states of the model-checking run IS the case lattice the driver
@@ -27,9 +35,21 @@ CONSTANTS OptWriter,     \* "all" : every member read is written back;  "skip_fa
           InWriter,      \* "positional" : omitted operands are written as -1;  "filter" : they are left out
           OutWriter,     \* "all" : every output of the operator is recorded / written;  "first" : only the first one
           CloneKeeps,    \* optional tensor members a clone of a tensor carries over
+          TableKept,     \* which quantisation tables the reader keeps: "always" (what the property asks for);
+                         \* "scale_or_zp" (tables with neither are dropped: the compiler today, known finding M3);
+                         \* "scale_and_zp" (tables with only one of the two are dropped as well: a regression)
+          CloneQuant,    \* "private": a clone of a tensor owns a copy of the quantisation table; "shared": it aliases the
+                         \* table of its source, so that rewriting the clone rewrites the tensor that is written back;
+                         \* "shallow": it owns a table whose vectors are those of the source (the compiler today: a per-axis
+                         \* zero point is rewritten in place, a per-tensor one is a scalar and is replaced)
           MaxIn          \* longest operand vector
 
-OptionalMembers == {"minmax", "qdim", "peraxis"}
+\* members of the quantisation table ("qdim" = a non-zero quantised dimension stored); "peraxis" = the scale / zero point
+\* vectors that are present have one entry per channel
+QMembers == {"scale", "zp", "min", "max", "qdim"}
+OptionalMembers == QMembers \cup {"peraxis"}
+\* command-line options that rewrite or re-place tensors; none of them may show on a kept operator or an interface tensor
+CompilerOpts == {"none", "force_symmetric", "optimise_size", "cpu_align"}
 Roles == {"graph_in",      \* subgraph input (read by a CPU or NPU operator)
           "npu_to_cpu",    \* produced on the NPU, read by the CPU operator    (re-created when the NPU subgraph is cut out)
           "npu_to_net",    \* produced on the NPU, subgraph output               (re-created likewise)
@@ -57,8 +77,14 @@ Cases ==
     {c \in OptionCases : c.dflt \in DfltsOf(c.kind) /\ c.val \in ValsOf(c.kind)}
     \cup {[sort |-> "operand", slots |-> s] : s \in {q \in SlotSeqs : \E p \in DOMAIN q : q[p] = "t"}}
     \cup {[sort |-> "output", uses |-> u] : u \in UNION {[1..m -> SUBSET {"net", "next"}] : m \in 1..2}}
-    \cup {c \in {[sort |-> "tensor", role |-> r, has |-> h] : r \in Roles, h \in SUBSET OptionalMembers} :
-              c.role \in OnNpu => "peraxis" \notin c.has}
+    \cup {c \in [sort : {"tensor"}, role : Roles, has : SUBSET OptionalMembers, dt : {"int", "float"}] :
+              \* next to an NPU operator: fully quantised integer feature maps only (anything else keeps the operator off)
+              /\ c.role \in OnNpu => ({"scale", "zp"} \subseteq c.has /\ "peraxis" \notin c.has /\ c.dt = "int")
+              /\ "peraxis" \in c.has => (c.has \cap {"scale", "zp"} # {} /\ c.dt = "int")}
+    \cup {c \in [sort : {"weight"}, opt : CompilerOpts, zp : {"zero", "nonzero"}, per : {"tensor", "axis"},
+                  act : {"int8", "int16"}, why : {"asym", "other"}] :
+              \* asymmetric weights keep the operator off the NPU unless the option forces them symmetric
+              c.why = "asym" => (c.zp = "nonzero" /\ c.opt # "force_symmetric")}
 
 VARIABLES case, stage, img
 vars == <<case, stage, img>>
@@ -69,6 +95,7 @@ SrcImage(c) ==
     CASE c.sort = "option" -> c.val          \* a value equal to the default is simply not stored; it still reads as val
       [] c.sort = "operand" -> c.slots
       [] c.sort = "output" -> [p \in DOMAIN c.uses |-> "t"]
+      [] c.sort = "weight" -> c.zp
       [] OTHER -> c.has
 
 (* ---- the implementation under its policies ------------------------------------------------------- *)
@@ -87,7 +114,17 @@ WrittenOperands(c) == IF InWriter = "positional" THEN c.slots ELSE Compact(c.slo
 \* outputs the pass of the operator declares (liveness, links and the cut of NPU subgraphs are computed from them)
 Declared(c) == IF OutWriter = "all" THEN DOMAIN c.uses ELSE {1}
 
-WrittenTensor(c) == IF c.role \in Recreated THEN c.has \cap CloneKeeps ELSE c.has
+TableSurvives(h) == CASE TableKept = "always" -> TRUE
+                       [] TableKept = "scale_or_zp" -> h \cap {"scale", "zp"} # {}
+                       [] OTHER -> {"scale", "zp"} \subseteq h
+WrittenTensor(c) == LET h == IF TableSurvives(c.has) THEN c.has ELSE {}
+                    IN IF c.role \in Recreated THEN h \cap (CloneKeeps \cup {"scale", "zp"}) ELSE h
+
+\* the reader works on a clone of the weights (transposed to the NPU layout); --force-symmetric-int-weights zeroes the zero
+\* point OF THE CLONE before anybody knows whether the operator will run on the NPU; an operator that stays on the CPU
+\* gets its source tensor back
+WrittenWeight(c) == IF c.opt = "force_symmetric" /\ (CloneQuant = "shared" \/ (CloneQuant = "shallow" /\ c.per = "axis"))
+                    THEN "zero" ELSE c.zp
 
 Init == case \in Cases /\ stage = "src" /\ img = SrcImage(case)
 Compile ==
@@ -95,6 +132,7 @@ Compile ==
     /\ img' = CASE case.sort = "option" -> WrittenOption(case)
                 [] case.sort = "operand" -> WrittenOperands(case)
                 [] case.sort = "output" -> [p \in DOMAIN case.uses |-> "t"]
+                [] case.sort = "weight" -> WrittenWeight(case)
                 [] OTHER -> WrittenTensor(case)
     /\ stage' = "out"
     /\ UNCHANGED case
@@ -105,6 +143,8 @@ Spec == Init /\ [][Next]_vars
 OptionRoundTrip == (stage = "out" /\ case.sort = "option") => img = SrcImage(case)
 OperandPositions == (stage = "out" /\ case.sort = "operand") => img = case.slots
 TensorRoundTrip == (stage = "out" /\ case.sort = "tensor") => img = case.has
+\* whatever the options: the weights of a kept operator are the weights of the source model
+WeightRoundTrip == (stage = "out" /\ case.sort = "weight") => img = case.zp
 \* every output somebody uses is one the pass declares (otherwise links / live ranges / the NPU cut miss it)
 OutputsDeclared == (stage = "out" /\ case.sort = "output") =>
                       \A p \in DOMAIN case.uses : case.uses[p] # {} => p \in Declared(case)
